@@ -100,6 +100,25 @@ def random_config(rng, names=None, ranks=(3, 4, 5), small=False):
     raise RuntimeError("no feasible configuration found")
 
 
+def boundary_configs(rng, seeds=2):
+    """Small shapes at the boundaries every generator has to cope with: one frame and several, odd and even widths and
+    heights, for every mode. Feasible by construction; each yields (name, mode, shape, accel, cf, seed)."""
+    for name in ALL:
+        modes = ["dynamic"] if name in KT else ["static", "dynamic", "multislice"]
+        for mode in modes:
+            for frames in ([1] if mode == "static" else [1, 3]):
+                for cols in (rng.choice([17, 19, 21, 23]), rng.choice([16, 18, 20, 24])):
+                    rows = rng.choice([8, 9, 12, 13])
+                    shape = [rows, cols, 2] if mode == "static" else [frames, rows, cols, 2]
+                    for _ in range(40):
+                        accel = rng.choice([2, 3, 4])
+                        cf = rng.choice([2, 3, 4]) if name.startswith("Cartesian") else rng.choice([0.08, 0.1, 0.16, 0.2])
+                        if feasible(name, shape, accel, cf):
+                            for _s in range(seeds):
+                                yield (name, mode, shape, accel, cf, rng.randrange(10**6))
+                            break
+
+
 def second_pair(rng, cfg):
     """The configuration with a second feasible (acceleration, center fraction) pair: which pair a call uses is part of
     what the seed has to determine."""
